@@ -1,7 +1,8 @@
 """C08 — the SCC reader shows what a CEA-608 decoder displays, when it displays it.
 
 Theorems: coq/Properties/C08.v (stamps on the frame grid and inside the line's window, frames per word, channel
-filter, doubled control codes, pop-on / EDM / roll-up-depth protocol skeleton) about M = coq/Model/SccReader.v.
+filter, doubled control codes, no word raises, no negative time, pop-on / EDM / roll-up-depth protocol skeleton) about
+M = coq/Model/SccReader.v.
 Ties: M's document equals ttconv.scc.reader.to_model's on generated streams (oracle 1, evaluated inside Coq); the
 reference CEA-608 decoder S = coq/Spec/Cea608Screen.v is compared with the implementation's document at every
 frame around every line (oracle 2, inside Coq).  Oracle 2 per stream: the property as stated (the standard, one
@@ -426,6 +427,100 @@ class Gen:
         return [(t, ws)], t + len(ws) + r.randint(3, 30)
 
 
+# ------------------------------------------------------------------------------------------------
+# directed streams for the two repaired code paths (repairs 2161e28 / db8ff2b of the implementation)
+# ------------------------------------------------------------------------------------------------
+def gen_no_caption(rng):
+    """backspace, tab offsets, extended characters (and the other codes that look at the caption being processed) received
+    while NO caption is being processed: roll-up / paint-on style with nothing displayed (start of the file, after EDM).
+    The reader used to raise AttributeError here; the code is now ignored.  Compared with M (oracle 1) only: what a decoder
+    shows for an extended character without a positioned cursor is not what the reader's active_cursor gives."""
+    r = rng; df = r.random() < 0.4
+    g = Gen(r, r.choice([0, 0, 1, 2]), pad_p=r.choice([0, 0.15]), ch2_p=r.choice([0, 0.1]))
+    t = start_frame(r, df); lines = []
+    def orphan_codes():
+        out = []
+        for _ in range(r.randint(1, 5)):
+            k = r.random()
+            if k < 0.30: out += g.code(BS)
+            elif k < 0.60: out += g.code(0x1720 + r.randint(1, 3))
+            elif k < 0.80: out += g.code(w_ext(r.randrange(64)))
+            elif k < 0.87: out += g.code(DER)
+            elif k < 0.94: out += g.code(w_mid(r.randrange(16)))
+            else: out += g.code(0x1020 + r.randrange(16))          # background attribute code
+            if r.random() < 0.2: out += text_words([ord(c) for c in r.choice(WORDS)])
+        return out
+    for _ in range(r.randint(1, 3)):
+        style = r.choice(["paint", "roll"])
+        ws = g.code(RDC) if style == "paint" else g.code(r.choice([RU2, RU3, RU4]))
+        if r.random() < 0.7:
+            # something displayed first, then erased: the active caption is gone, the style stays
+            if style == "roll": ws += g.code(CR)
+            ws += g.row_words(15 if style == "roll" else r.randint(1, 15), mid=False)
+            lines.append((t, ws)); t += len(ws) + r.randint(3, 30)
+            ws = g.code(EDM)
+        elif style == "roll":
+            # RUx creates the active caption: erase it so that nothing is being processed
+            ws += g.code(EDM)
+        ws += orphan_codes()
+        if r.random() < 0.7:
+            if style == "roll" and r.random() < 0.5: ws += g.code(CR)
+            ws += g.row_words(15 if style == "roll" else r.randint(1, 15), mid=r.random() < 0.3)
+            if r.random() < 0.3: ws += g.code(BS) + g.code(0x1720 + r.randint(1, 3))
+        lines.append((t, ws)); t += len(ws) + r.randint(3, 40)
+        if r.random() < 0.6:
+            ws = g.code(EDM) + (orphan_codes() if r.random() < 0.5 else [])
+            lines.append((t, ws)); t += len(ws) + r.randint(3, 30)
+    st = Stream("nocaption", df, r.random() < 0.7, lines, judged=False); st.dbl = g.dbl
+    return st
+
+
+def gen_paint_flip(rng):
+    """a paint-on caption whose words carry span begins (words starting / ending with a space, mid-row codes) is moved to the
+    non-displayed memory by an EOC, optionally extended there in pop-on style, and displayed again by a later EOC: its text was
+    painted before the new paragraph begins.  The reader used to give such spans a negative begin; they now begin with the
+    paragraph.  Judged by S like the protocol streams."""
+    r = rng; df = r.random() < 0.4
+    g = Gen(r, r.choice([0, 0, 1]), pad_p=r.choice([0, 0.1]), ch2_p=0)
+    t = start_frame(r, df); lines = []
+    for _ in range(r.randint(1, 2)):
+        ws = g.code(RDC)
+        rows = sorted(r.sample(range(1, 16), r.randint(1, 2)))
+        for row in rows:
+            ind = r.randrange(4)
+            ws += g.code(w_pac(row, 0x10 + 2 * ind))
+            # every row stays left of the last column (as in the protocol grammars: what the reader does there is not judged):
+            # indent + text + mid-row cell and four characters + the word (at most eight characters) appended after the first flip <= 30
+            txt = " ".join(r.choice(WORDS) for _ in range(r.randint(2, 4)))[:30 - 4 * ind - 14]
+            if r.random() < 0.5: txt = txt if len(txt) % 2 == 0 else txt + "!"      # word boundaries fall on either byte of a pair
+            ws += text_words([ord(c) for c in txt])
+            if r.random() < 0.3: ws += g.code(w_mid(r.randrange(16))) + text_words([ord(c) for c in r.choice(WORDS)[:4]])
+            if r.random() < 0.4:
+                lines.append((t, ws)); t += len(ws) + r.randint(3, 30); ws = []
+        if ws: lines.append((t, ws)); t += len(ws) + r.randint(3, 40)
+        # first flip: the paint-on caption goes to the non-displayed memory
+        ws = (g.code(RCL) if r.random() < 0.7 else []) + g.code(EOC)
+        lines.append((t, ws)); t += len(ws) + r.randint(3, 60)
+        ws = []
+        if r.random() < 0.6:
+            # pop-on style: more text for the caption now in the non-displayed memory
+            ws += g.code(RCL)
+            if r.random() < 0.5:
+                free = [x for x in range(1, 16) if x not in rows]
+                ws += g.code(w_pac(r.choice(free), 0x10 + 2 * r.randrange(4))) + text_words([ord(c) for c in r.choice(WORDS)])
+            else:
+                ws += text_words([ord(c) for c in r.choice(WORDS)])
+        # second flip: displayed again, later than its words were painted
+        ws += g.code(EOC)
+        lines.append((t, ws)); t += len(ws) + r.randint(3, 60)
+        if r.random() < 0.3:
+            ws = g.code(EOC); lines.append((t, ws)); t += len(ws) + r.randint(3, 30)
+            ws = g.code(EOC); lines.append((t, ws)); t += len(ws) + r.randint(3, 30)
+        ws = g.code(EDM) + g.code(ENM); lines.append((t, ws)); t += len(ws) + r.randint(3, 30)
+    st = Stream("paintflip", df, r.random() < 0.7, lines); st.dbl = g.dbl
+    return st
+
+
 def start_frame(rng, df):
     k = rng.random()
     if k < 0.5: return rng.randint(0, 3000)
@@ -583,6 +678,48 @@ def impl_job(args):
         return run_impl(scc, ta)
     except Noncanonical as e:
         return ("noncanonical", str(e))
+
+
+# which of the two repaired paths a stream drives the implementation through: observed on the running code (wrappers that only
+# look, then call the original method)
+_REACH = None
+
+def _instrument():
+    global _REACH
+    if _REACH is not None: return _REACH
+    _REACH = {"code_without_caption": 0, "painton_text_before_paragraph": 0}
+    import ttconv.scc.context as cx, ttconv.scc.caption_paragraph as cp
+    from ttconv.scc.codes.control_codes import SccControlCode as K
+    from ttconv.scc.caption_style import SccCaptionStyle
+    orig_bs, orig_pcc, orig_tp = cx.SccContext.backspace, cx.SccContext.process_control_code, cp.SccCaptionParagraph.to_paragraph
+    def backspace(self):
+        # BS control code and extended characters (SccLine.process calls context.backspace())
+        if self.get_caption_to_process() is None: _REACH["code_without_caption"] += 1
+        return orig_bs(self)
+    def process_control_code(self, control_code, time_code):
+        if control_code in (K.TO1, K.TO2, K.TO3) and self.get_caption_to_process() is None: _REACH["code_without_caption"] += 1
+        return orig_pcc(self, control_code, time_code)
+    def to_paragraph(self, doc):
+        if self.get_caption_style() is SccCaptionStyle.PaintOn and self.get_begin() is not None:
+            b0 = self.get_begin().to_temporal_offset()
+            for line in self.get_lines().values():
+                for t in line.get_texts():
+                    if not t.is_empty() and t.get_begin() is not None and t.get_begin().to_temporal_offset() < b0:
+                        _REACH["painton_text_before_paragraph"] += 1
+        return orig_tp(self, doc)
+    cx.SccContext.backspace, cx.SccContext.process_control_code = backspace, process_control_code
+    cp.SccCaptionParagraph.to_paragraph = to_paragraph
+    return _REACH
+
+
+def impl_reach_job(args):
+    """impl_job plus the number of times each repaired path was taken"""
+    import logging
+    logging.disable(logging.CRITICAL)
+    sys.path.insert(0, C.SRC)
+    reach = _instrument()
+    for k in reach: reach[k] = 0
+    return impl_job(args), dict(reach)
 
 
 def write_shards(prefix, judged, plain, cap=180000):
@@ -756,7 +893,7 @@ def main():
 
     # ---- inputs --------------------------------------------------------------------------------
     rng = run.rng
-    n_proto, n_wild = (300, 100) if run.tier == "quick" else (7500, 2500)
+    n_proto, n_wild, n_dir = (300, 100, 40) if run.tier == "quick" else (7500, 2500, 1000)
     cases = []
     for s in test_file_streams():
         for ta in (-1, 0, 1, 2, 3):
@@ -771,6 +908,11 @@ def main():
     for i in range(n_wild):
         st = gen_wild(rng)
         cases.append(dict(talign=rng.randrange(4), scc=st.scc(), kind="wild", judged=None))
+    # directed streams for the repaired paths (drawn after the others: the streams above are those of earlier versions of the check)
+    for i in range(n_dir):
+        st = gen_no_caption(rng) if i % 2 == 0 else gen_paint_flip(rng)
+        scc = st.scc()
+        cases.append(dict(talign=rng.randrange(4), scc=scc, kind=st.kind, judged=parse_scc_single_rate(scc) if st.judged else None, dbl=st.dbl))
     rp = os.environ.get("VERIF_REPLAY")
     if rp:
         try:
@@ -781,7 +923,13 @@ def main():
 
     # ---- the implementation ----------------------------------------------------------------------
     with ProcessPoolExecutor(C.NCPU) as ex:
-        docs = list(ex.map(impl_job, [(c["talign"], c["scc"]) for c in cases], chunksize=50))
+        docs_reach = list(ex.map(impl_reach_job, [(c["talign"], c["scc"]) for c in cases], chunksize=50))
+    docs = [d for d, _ in docs_reach]
+    reach_hist = {}
+    for c, (_, rc_) in zip(cases, docs_reach):
+        c["reach"] = rc_
+        for k, n in rc_.items():
+            if n: reach_hist.setdefault(k, {}); reach_hist[k][c["kind"]] = reach_hist[k].get(c["kind"], 0) + 1
     harness_bad = []
     for c, d in zip(cases, docs):
         if d[0] == "noncanonical":
@@ -805,12 +953,13 @@ def main():
                           f"{len(aux[1])} lines and {len(aux[2])} labels", dict(kind="broken-tie", style_cases=aux[1][:5], align_cases=aux[2][:5]), found_input=False)
     m_bad = [c for c in cases if c.get("model_ok") is False]
     p_bad = [c for c in cases if c.get("parse_ok") is False]
-    verdicts = {}
+    verdicts = {}; verdicts_by_kind = {}
     viol, known_hist = [], {}
     for c in cases:
         if not c["judged"] or "codes" not in c: continue
         v = judge(c["codes"]); c["verdict"] = v
         verdicts[v[0]] = verdicts.get(v[0], 0) + 1
+        verdicts_by_kind.setdefault(c["kind"], {}); verdicts_by_kind[c["kind"]][v[0]] = verdicts_by_kind[c["kind"]].get(v[0], 0) + 1
         if v[0] == "known":
             for fid in v[1]: known_hist[fid] = known_hist.get(fid, 0) + 1
         elif v[0] == "violation":
@@ -827,6 +976,13 @@ def main():
         if k == 2 and c["codes"][0] != NONE_CODE and c.get("model_ok") is not False: thm_bad.append(c)
     run.log(f"{len(cases)} streams ({sum(1 for c in cases if c['judged'])} judged by S): model/code mismatches {len(m_bad)}, "
             f"parse mismatches {len(p_bad)}, S verdicts {verdicts}, broken case files {len(broken)}")
+    reach_total = {k: sum(v.values()) for k, v in reach_hist.items()}
+    run.log("repaired paths reached (streams): " + ", ".join(f"{k} {reach_total.get(k, 0)} {reach_hist.get(k, {})}"
+                                                             for k in ("code_without_caption", "painton_text_before_paragraph")))
+    for k in ("code_without_caption", "painton_text_before_paragraph"):
+        if not reach_total.get(k):
+            run.violation(f"harness: no generated stream drives the implementation through the repaired path {k}",
+                          dict(kind="harness", why="generator coverage", path=k), found_input=False)
     for fid, n in sorted(known_hist.items()):
         run.known(fid, f"{n} generated streams")
         if fid not in {f["id"] for f in run.findings}:
@@ -892,14 +1048,19 @@ def main():
                         "1-4 rows, standard / special / extended characters, PAC and mid-row attributes, optional ENM / EDM, channel-2 "
                         "blocks, null padding, parity set or cleared, DF and NDF time codes near minute boundaries, doubled / single / "
                         "mixed control codes) x text_align, plus unconstrained word streams (every class, both channels, malformed words, "
-                        "mixed rates) and the literal streams of test_scc_reader.py.  Oracle 1: Model/SccReader.v to_model = "
+                        "mixed rates), the literal streams of test_scc_reader.py, and directed streams for the two repaired paths: backspace / tab "
+                        "offset / extended character while no caption is being processed (roll-up or paint-on style, nothing displayed; "
+                        "oracle 1 only) and paint-on captions moved to the non-displayed memory by an EOC and displayed again by a later "
+                        "one (text painted before the paragraph begins; judged by S) - repaired_paths_reached counts, on the running "
+                        "implementation, the streams that take each path.  Oracle 1: Model/SccReader.v to_model = "
                         "ttconv.scc.reader.to_model on every stream (inside Coq).  Oracle 2: the reference decoder of "
                         "Spec/Cea608Screen.v against the implementation's document at every frame, on the protocol streams. "
                         "distinct_nontrivial = number of distinct documents.",
                    samples=[dict(kind=c["kind"], scc=c["scc"][:400], verdict=c.get("verdict")) for c in cases[len(cases) // 3:len(cases) // 3 + 3]],
                    stream_kinds=kinds_hist, outcomes=outcome_hist, judged_words=words, s_verdicts=verdicts, findings_hit=known_hist,
                    model_code_mismatches=len(m_bad), strictly_accepted=verdicts.get("ok", 0), display_theorem_class=class_hist,
-                   aux_cases=dict(get_style_lines=len(styles), from_value_labels=len(aligns)))
+                   aux_cases=dict(get_style_lines=len(styles), from_value_labels=len(aligns)),
+                   repaired_paths_reached=reach_hist, s_verdicts_by_kind=verdicts_by_kind)
     run.assumptions += ["S (Spec/Cea608Screen.v) is a reading of CTA-608-E sections 6-7 / 47 CFR 15.119; word attributes come from the C17-verified decoder",
                         "the harness canonicalises the ContentDocument (harness/c08.py canon_doc) and parses the generated files for S (parse_scc_single_rate; cross-checked against M's from_str inside Coq)",
                         "str.splitlines is applied by the harness, not modelled",
